@@ -12,3 +12,48 @@ CHECKS = [
              "non-converging cases are counted and skipped (coverage floor 50%)"},
 ]
 NOT_APPLICABLE = [{"property_id": "C%02d" % i, "reason": _PENDING} for i in range(2, 21)]
+
+CHECKS += [
+    {"property_id": "C02", "category": "exploration", "design_ref": "DESIGN.md 4/C02",
+     "technique": "bounded-exhaustive parameter-lattice enumeration on the real solver + independent momentum-law oracle",
+     "text": "Every point within d<=2 (quick) / d<=3 (thorough) deviations of a 12-dimensional parameter lattice (length, "
+             "diameter, roughness, heights, loss coefficient, temperatures, pressure, direction, laminar/turbulent flow, "
+             "sections, element kind pipe/valve/heat exchanger, single/mesh) x 8 library fluids x 3 friction models x numba, "
+             "plus scope H d<=1, is solved by the real pipeflow; per section the documented liquid / real-gas momentum "
+             "law is re-evaluated by harness code (own Colebrook iteration, own barometric formula) to 1e-9 bar and the "
+             "reported lambda, Re, velocities, volume flows and norm factors are recomputed.",
+     "note": "fluid property values through the public Fluid API (C19 binds them to the data files); envelope oracle where "
+             "end temperatures differ; alphabet values only"},
+    {"property_id": "C04", "category": "exploration", "design_ref": "DESIGN.md 4/C04",
+     "technique": "exhaustive flag-lattice enumeration (all 2^k patterns) on the real solver + reachability model + differential run",
+     "text": "All 2^k in_service/opened/control_active patterns (k=9-10 quick, 9-14 thorough) on four superset networks "
+             "(two-feeder water mesh with pressure and flow controller, ring with junction-pipe valves and colliding "
+             "labels, gas tree with compressor, heat ladder with two circulation pumps in sequential mode) are run through "
+             "the real pipeflow; NaN pattern of every result row is compared with an independent reachability model "
+             "(valve nodes, one-way pressure controller) and all results with those of the pruned network; "
+             "no supplied junction => PipeflowNotConverged, any other exception type is a violation.",
+     "note": "the reachability model is harness code written from the statement and the component documentation; "
+             "feeder on out-of-service junction is excluded as ambiguous and counted"},
+    {"property_id": "C05", "category": "model_checking", "design_ref": "DESIGN.md 4/C05 and 5",
+     "technique": "explicit-state exploration of the real Newton driver under a scripted environment + TLC model with full "
+                  "path replay against the implementation + exhaustive fault injection / call-history BFS on pipeflow",
+     "text": "(a) BFS over all letter sequences (per-unknown change level x residual level, incl. NaN and the exact boundary) "
+             "up to the iteration bound on the real newton_raphson/finalize_iteration/set_damping_factor for the hydraulic, "
+             "thermal and bidirectional stage, three damping settings, two initial alphas, with state deduplication; "
+             "(b) TLC explores tla/NewtonDriver.tla completely (Inv, Budget, TypeOK) and every path of the dumped state "
+             "graph is replayed on the real driver and compared state by state; (c) BFS over pipeflow call/edit histories "
+             "(depth 2/3) on three nets with a monitor recomputing the last change of every unknown; (d) every single "
+             "(thorough: adjacent pair of) faulty spsolve answer at every solve index after a successful run.",
+     "note": "TLC trusted for the model; the stub linearisation reproduces the interface of solve_hydraulics / "
+             "solve_temperature / solve_bidirectional (argument lists of bidirectional are read from its source)"},
+    {"property_id": "C14", "category": "model_checking", "design_ref": "DESIGN.md 4/C14",
+     "technique": "exhaustive enumeration of option-layer configurations and set_user_pf_options histories against a reference model",
+     "text": "Full product of presence patterns of every option key (+iter, +unknown key) in the user and call layers, the "
+             "full iter x max_iter_* presence product over both layers, mode alias, reuse/only_update coupling product, "
+             "numba availability, all key pairs (thorough) and all set_user_pf_options/pipeflow histories to depth 2/3; "
+             "net._options is compared key by key with a reference merge; defaults, user options and call kwargs are "
+             "checked for mutation; documented defaults are parsed from the init_options docstring; observable effects "
+             "(iteration budget, friction model) are measured.",
+     "note": "reference model written from doc/source/pipeflow/options.rst and the statement; pinned copy of default values"},
+]
+NOT_APPLICABLE = [x for x in NOT_APPLICABLE if x["property_id"] not in {c["property_id"] for c in CHECKS}]
